@@ -10,13 +10,7 @@ import time
 ID = 'C05'
 TECHNIQUE = 'runtime monitor: CPU-time bound per regex builtin call with a parent-side hard watchdog reading /proc CPU before killing'
 BOUND_CONST, BOUND_PER_PATTERN_CHAR, BOUND_PER_SUBJECT_CHAR = 0.6, 50e-6, 5e-6
-RULE = ('(function, pattern, subject, flags) with function in {match, match_groups, match_all}; pattern families: nested and overlapping quantifiers, '
-        'alternations, counted repeats, (a?){n}a{n}, back-references, lookaround with quantified bodies, atomic/possessive groups, recursion, fuzzy and reverse '
-        'matching, POSIX and V1 set operations, group-less adjacent quantifiers (polynomial), many moderately expensive matches in one subject (match_all), '
-        'long literals / alternations / classes (compile cost, <= 20000 chars), random compositions of those fragments; adversarial subjects of 10 .. 10^5 chars; '
-        'flag strings "", i, m, s, ims, garbage, and long strings of flag letters with an invalid tail. Bound: CPU <= %.2f s + %.0f us x len(pattern) + %.0f us x '
-        'len(subject). Non-trivial = the call was timed against the bound; distinct = distinct (function, pattern, subject length, flags).'
-        % (BOUND_CONST, BOUND_PER_PATTERN_CHAR * 1e6, BOUND_PER_SUBJECT_CHAR * 1e6))
+RULE = '(function, pattern, subject, flags[, extra arguments]) with function in {match, match_groups, match_all}; pattern families: nested and overlapping quantifiers, alternations, counted repeats, (a?){n}a{n}, back-references, lookaround with quantified bodies, atomic/possessive groups, recursion, fuzzy and reverse matching, POSIX and V1 set operations, group-less adjacent quantifiers, many moderately expensive matches / sub-timeout segments in one subject, long literals / alternations / classes (<= 20000 chars), random compositions; adversarial subjects of 10 .. 10^5 chars; flag strings: every single letter, pairs, i/m/s combinations, garbage, long strings of flag letters with an invalid tail, None; 4th/5th arguments; sequences of 2-5 regex calls in ONE evaluation (costly-to-compile harmless patterns first, a catastrophic one last). Bound: CPU <= 0.60 s + 50 us x len(pattern) + 5 us x len(subject) per call (sum for a sequence). Non-trivial = the call (sequence) was timed against the bound; distinct = distinct (function, pattern, subject length, flags).'
 ASSUMPTIONS = ['CPU time of the calling thread (not wall time) is the measure; a case killed by the hard watchdog is a violation only if the worker had burnt more CPU than the bound',
                'the bound has >= 3x head-room over everything measured on the unchanged tree (catastrophic patterns abort after 0.05-0.17 s CPU; compile <= 17 us/char)',
                'pattern length <= 20000 characters']
